@@ -109,8 +109,19 @@ func genJSON(name string, depth int, strLen int) *jval {
 	return v
 }
 
-// render writes the JSON text in one of three layouts: 0 compact, 1 spaces after
-// separators and inside brackets, 2 newline-indented.
+// jsonWS draws one symbolic JSON whitespace character (space, tab, LF, CR).
+var c17Gap int
+
+func jsonWS() string {
+	c17Gap++
+	b := verif.Byte("ws" + itoa(c17Gap))
+	verif.Assume(verif.Or(verif.Or(b == ' ', b == '\t'), verif.Or(b == '\n', b == '\r')))
+	return string([]byte{b})
+}
+
+// render writes the JSON text in one of four layouts: 0 compact, 1 spaces after
+// separators and inside brackets, 2 newline-indented, 3 one symbolic JSON whitespace
+// character (space, tab, LF or CR, chosen by the solver) in every gap between tokens.
 func (v *jval) render(sb *strings.Builder, layout int, indent string) {
 	nl := func(ind string) {
 		switch layout {
@@ -118,6 +129,8 @@ func (v *jval) render(sb *strings.Builder, layout int, indent string) {
 			sb.WriteString(" ")
 		case 2:
 			sb.WriteString("\n" + ind)
+		case 3:
+			sb.WriteString(jsonWS())
 		}
 	}
 	switch v.kind {
@@ -135,6 +148,9 @@ func (v *jval) render(sb *strings.Builder, layout int, indent string) {
 		sb.WriteString("[")
 		for i, e := range v.arr {
 			if i > 0 {
+				if layout == 3 {
+					sb.WriteString(jsonWS()) // whitespace in front of the comma
+				}
 				sb.WriteString(",")
 			}
 			nl(indent + "  ")
@@ -148,12 +164,20 @@ func (v *jval) render(sb *strings.Builder, layout int, indent string) {
 		sb.WriteString("{")
 		for i, e := range v.obj {
 			if i > 0 {
+				if layout == 3 {
+					sb.WriteString(jsonWS())
+				}
 				sb.WriteString(",")
 			}
 			nl(indent + "  ")
-			sb.WriteString(`"` + v.kraw[i] + `":`)
-			if layout > 0 {
-				sb.WriteString(" ")
+			sb.WriteString(`"` + v.kraw[i] + `"`)
+			if layout == 3 {
+				sb.WriteString(jsonWS() + ":" + jsonWS())
+			} else {
+				sb.WriteString(":")
+				if layout > 0 {
+					sb.WriteString(" ")
+				}
 			}
 			e.render(sb, layout, indent+"  ")
 		}
@@ -232,13 +256,20 @@ func H_C17_json() {
 		depth, strLen = 2, 2
 	}
 	v := genJSON("J", depth, strLen)
-	layout := verif.Choice("layout", 3)
+	layout := verif.Choice("layout", 4)
 	var sb strings.Builder
+	c17Gap = 0
+	if layout == 3 {
+		sb.WriteString(jsonWS())
+	}
 	v.render(&sb, layout, "")
+	if layout == 3 {
+		sb.WriteString(jsonWS())
+	}
 	text := sb.String()
 	got, err := parse.Value(text)
 	verif.Reach("json parsed")
-	lay := []string{"compact", "spaced", "indented"}[layout]
+	lay := []string{"compact", "spaced", "indented", "any-whitespace"}[layout]
 	verif.Assert(err == nil, "C17/JSON text accepted/"+lay)
 	if err != nil {
 		return
